@@ -15,6 +15,7 @@ import TomlVerif.Driver.C13
 import TomlVerif.Driver.C08
 import TomlVerif.Driver.C07
 import TomlVerif.Driver.C07Typed
+import TomlVerif.Driver.C15Loc
 
 open TomlVerif
 
@@ -27,6 +28,7 @@ def dispatch (mode : String) (line : String) : String :=
   | "val" => Driver.valLine line
   | "stack" => Driver.stackLine line
   | "c15" => Driver.c15 line
+  | "c15d" => Driver.C15Loc.c15d line
   | "c04" => Driver.c04 line
   | "c18" => Driver.c18 line
   | "c20" => Driver.c20 line
